@@ -28,7 +28,12 @@ MANIFEST = {
             "every call terminating: coap_ws_close neither aborts nor loops for ever on any input), and what the drain does when it "
             "cannot see the peer's Close frame: ws_close_drain_socket_empty / ws_close_drain_close_unseen (frames in the same header "
             "read as the Close frame: the loop only waits), ws_close_drain_oversize_stuck (after 1009: five calls returning -1, nothing "
-            "read), ws_close_drain_refused_stuck (after 1002/1003: the same header is refused again). Ten defects found on the way are "
+            "read), ws_close_drain_refused_stuck (after 1002/1003: the same header is refused again), ws_close_drain_rounds (exactly 5 "
+            "select() rounds unless the Close frame is seen; rounds and calls are compared with the code, select() being wrapped in "
+            "the harness), ws_read_closed_cases / ws_self_close_classified (the reader's own coap_ws_close - model selfClose, `wsself` "
+            "lines - either has recv_close set and does not drain, or drains from a refused header / frame and cannot progress), "
+            "ws_frames_states_ok / ws_reader_states_ok (every state an open session is left in, after every byte stream and "
+            "segmentation, satisfies the hypothesis RdOk of the in-bounds theorems). Ten defects found on the way are "
             "fixed in /repo (1 TCP, 9 WebSocket).",
     "note": "Trusted: Lean kernel (+ propext, Classical.choice, Quot.sound), harness/stream.c (chunk feeder replacing the socket layer, "
             "dispatch hook 2de516c), generators, the hand transcriptions M / M_ws (checked against the compiled code on the cases run "
@@ -56,15 +61,18 @@ RULE = ("(byte stream, segmentation) pairs replayed into the real coap_read_sess
         "field-mutated frames, oversize declared lengths, small configured maxima; WS: handshake + masked/unmasked frames with "
         "7/16/64-bit lengths; header blocks with NUL bytes, blank-led lines, binary bytes, odd line ends, frames "
         "inside an unfinished block); segmentations = every 2- and 3-cut placement on short streams, one byte per read, cuts around "
-        "every header boundary, reads of exactly the 1472-byte buffer, random; non-trivial = the specification delivers at "
+        "every header boundary, reads of exactly the 1472-byte buffer, random; wsclose: the application closes with frames / Close / "
+        "Ping / 90-1473-byte frames pending; wsself: one chunk on which the reader refuses a frame (1002/1003/1009) or receives a "
+        "Close frame with further bytes of the chunk pending; non-trivial = the specification delivers at "
         "least one message or closes the session")
 TRUSTED_BASE = ["Lean 4.33 kernel; axioms allowed: propext, Classical.choice, Quot.sound (audited per theorem each run)",
                 "harness/stream.c (chunk feeder in place of the socket layer, dispatch hook, stack scribbling) + generators + string comparison",
                 "M (CoapVerif/Model/StreamReader.lean) and M_ws (Model/WsReader.lean) are hand transcriptions of the TCP / WebSocket "
                 "readers; checked against the compiled code only on the cases run",
                 "WebSocket: SHA-1/base64 of the accept hash and base64 decoding of the key are oracles; coap_ws_close's draining "
-                "(model closeDrain) is tied to the code by the `wsclose` lines (recv_close, bytes left unread); select() on the "
-                "socket is taken to report readable exactly while bytes are pending",
+                "(model closeDrain / drainRounds / selfClose) is tied to the code by the `wsclose` and `wsself` lines (recv_close, bytes "
+                "left unread, select() rounds, coap_ws_read calls); select() on the socket is taken to report readable exactly "
+                "while bytes are pending (the harness keeps the real fd in that state and wraps select() only to count)",
                 "source hook coap_verif_dispatch_hook (guarded by COAP_VERIF_HOOKS) reports the PDUs entering coap_dispatch"]
 ASSUMPTIONS = ["the transport returns the bytes of the stream in order, in arbitrary non-empty pieces, and never an error (a read "
                "error / EOF closes the session by design)",
